@@ -9,6 +9,8 @@ import (
 func TestC01(t *testing.T) { runRapid(t, "C01") }
 func TestC02(t *testing.T) { runRapid(t, "C02") }
 func TestC13(t *testing.T) { runRapid(t, "C13") }
+func TestC16(t *testing.T) { runRapid(t, "C16") }
+func TestC20(t *testing.T) { runRapid(t, "C20") }
 func TestC17(t *testing.T) { runRapid(t, "C17") }
 func TestC18(t *testing.T) { runRapid(t, "C18") }
 func TestC14(t *testing.T) { runRapid(t, "C14") }
@@ -54,4 +56,21 @@ func TestC15(t *testing.T) {
 		Emit("C15", map[string]any{"exhaustive": "all op sequences up to the given length over an 18-op alphabet", "max_len": maxLen}, 0, st, true, registry["C15"].Rule)
 	}
 	runRapid(t, "C15")
+}
+
+func TestC19(t *testing.T) { runRapid(t, "C19") }
+
+// FuzzC19 is the coverage-guided variant of the C19 target (thorough tier).
+func FuzzC19(f *testing.F) {
+	for _, b := range loadCorpus() {
+		f.Add(b)
+	}
+	f.Fuzz(func(t *testing.T, b []byte) {
+		if len(b) > 1<<16 {
+			return
+		}
+		if err := fuzzOne(b); err != nil {
+			t.Fatalf("property C19 violated: %v", err)
+		}
+	})
 }
